@@ -403,13 +403,15 @@ impl FixedPoint {
     }
 }
 
-impl From<Integer> for FixedPoint {
-    fn from(value: Integer) -> Self {
-        FixedPoint {
+impl TryFrom<Integer> for FixedPoint {
+    type Error = TryFromIntegerError;
+    fn try_from(value: Integer) -> Result<Self, Self::Error> {
+        let whole: u64 = value.value.try_into().map_err(|e| TryFromIntegerError {})?;
+        Ok(FixedPoint {
             span: value.span,
-            whole: value.value as u64,
+            whole,
             femptos: 0,
-        }
+        })
     }
 }
 
